@@ -33,6 +33,8 @@ impl From<&TweenerHandle> for ModulatorId {
 
 impl Drop for TweenerHandle {
 	fn drop(&mut self) {
+		#[cfg(kira_verif)]
+		crate::verif::yield_point("tweener.removed.store");
 		self.shared.removed.store(true, Ordering::SeqCst);
 	}
 }
